@@ -42,6 +42,11 @@ impl ValueStack {
         }
     }
 
+    #[cfg(feature = "verif-hooks")]
+    pub fn verif_capacity(&self) -> usize {
+        self.data.len()
+    }
+
     #[inline]
     pub fn as_slice(&self) -> &[Value] {
         &self.data[0..self.count]
